@@ -17,6 +17,12 @@ ASSUMPTIONS = ["variable and terminal value sets are disjoint",
 
 
 def gen(rng, tier):
+    if rng.chance(0.12):
+        # user variables spelled like the fresh C#CNF#n names, together with long bodies sharing suffixes
+        if rng.chance(0.6):
+            return G.gen_cfg(rng, profile="cnf_names", max_terms=3)
+        return G.gen_cfg(rng, profile="suffix", reserved=True, max_prods=4,
+                         reserved_pool=["C#CNF#1", "C#CNF#2", "C#CNF#3", "C#CNF#2"])
     return G.gen_cfg(rng, reserved=rng.chance(0.1))
 
 
